@@ -14,7 +14,7 @@ From Coq Require Import List ZArith NArith Bool Arith.
 Import ListNotations.
 Require Import Gram.Model.Term Gram.Model.Token Gram.Gen.TokenTables Gram.Model.Tokenizer Gram.Proofs.TokenizerProofs.
 Require Import Gram.Model.Grammar Gram.Model.Parser Gram.Model.ParserPost Gram.Proofs.ContractProofs Gram.Proofs.PanicProofs Gram.Proofs.PackratProofs.
-Require Import Gram.Model.ModelB Gram.Spec.ScopeSpec Gram.Proofs.ScopedProofs.
+Require Import Gram.Model.ModelB Gram.Spec.ScopeSpec Gram.Proofs.ScopedProofs Gram.Proofs.ScopeStore.
 
 Theorem C14_parse_terminates : forall toks memo ctx, fst (fst (parse_top toks memo ctx)) <> POutOfFuel.
 Proof. exact parse_top_within_fuel. Qed.
@@ -49,3 +49,32 @@ Check C14_checker_lookup_in_bounds : forall toks tree t ns f s r,
   syntax_tree toks = Some tree -> fst (fst (parse_top toks true [])) = POk t ns ->
   tcB f s [] [] t = Some r -> ~ In EScope (b_errs r).
 Print Assumptions C14_checker_lookup_in_bounds.
+
+(* the normaliser's and the unifier's context lookups (Proofs/ScopeStore.v): under the store-scoping invariant the
+   copies of whnfB / unifyB whose lookups ABORT on an index beyond the end of the definitions context compute the
+   same results, i.e. no lookup misses; a variable returned as a weak-head normal form is a parameter in range *)
+Theorem C14_unify_lookups_in_bounds : forall f s H D a b r,
+  store_ok H s -> dctx_ok H D -> wsc H (length D) (length D) a -> wsc H (length D) (length D) b ->
+  unifyB f s D a b = Some r -> unifyK f s D a b = Some r.
+Proof. exact unifyB_lookup_in_bounds. Qed.
+Check C14_unify_lookups_in_bounds : forall f s H D a b r,
+  store_ok H s -> dctx_ok H D -> wsc H (length D) (length D) a -> wsc H (length D) (length D) b ->
+  unifyB f s D a b = Some r -> unifyK f s D a b = Some r.
+Print Assumptions C14_unify_lookups_in_bounds.
+
+Theorem C14_whnf_variable_in_bounds : forall f s H D t i s',
+  store_ok H s -> dctx_ok H D -> wsc H (length D) (length D) t ->
+  whnfB f s D t = Some (TVar i, s') -> nth_error D i = Some None.
+Proof. exact whnfB_lookup_in_bounds. Qed.
+Check C14_whnf_variable_in_bounds : forall f s H D t i s',
+  store_ok H s -> dctx_ok H D -> wsc H (length D) (length D) t ->
+  whnfB f s D t = Some (TVar i, s') -> nth_error D i = Some None.
+Print Assumptions C14_whnf_variable_in_bounds.
+
+(* the type checker does NOT maintain that invariant (recorded finding D19): on the closed, parser-accepted program
+   `(f : type) => (z : (a : type) -> _) => ((w : (a : type) -> f) => w) z + z int` it asks the normaliser for index 2
+   of a context of length 2 - the implementation panics there (src/normalizer.rs, context lookup) *)
+Theorem C14_lookup_out_of_bounds_D19 : ltac:(let T := type of CE.tcB_lookup_out_of_bounds in exact T).
+Proof. exact CE.tcB_lookup_out_of_bounds. Qed.
+Check C14_lookup_out_of_bounds_D19 : _ /\ length CE.D2 = 2 /\ nth_error CE.D2 2 = None /\ _ /\ _ = None.
+Print Assumptions C14_lookup_out_of_bounds_D19.
